@@ -35,9 +35,12 @@ func (w *World) initState(e *Engine) *State {
 }
 
 // GenVC symbolically executes fn under its contract ct (may be nil) and returns the engine holding obligations.
-func (w *World) GenVC(fn *ssa.Function, ct *Contract) (res *FuncVC) {
+func (w *World) GenVC(fn *ssa.Function, ct *Contract, opts ...func(*Engine)) (res *FuncVC) {
 	key := FuncKey(fn)
 	e := NewEngine(w)
+	for _, o := range opts {
+		o(e)
+	}
 	e.namePrefix = key
 	e.top = fn
 	res = &FuncVC{Key: key, Fn: fn, Engine: e}
